@@ -238,6 +238,7 @@ func (c17) Class(e Ev) string {
 func (c17) Table(rows []Ev, tier string, seed int64, rep *TableReport) {
 	r := rand.New(rand.NewSource(seed))
 	for bi, row := range rows {
+		tick([]Ev{row})
 		pr := asMap(row["pred"])
 		done, fail := GI(pr["done"]), GI(pr["fail"])
 		acc := packet.NewAccumulator(func(b []byte) (bool, error) {
